@@ -225,6 +225,15 @@ def r2(ctx, fs):
                             continue
                         sv = matching[-1]
                         ctx.instance(rid3, [f.id, disc], {'setter': f.id, 'save': src(sv[3]), 'how': sv[2], 'guarded_by_not_count': unsaved})
+                        # the "already saved?" test must look the very key of the save up: a test on another key skips the save of an unsaved location
+                        for ct, pol in conds:
+                            if pol:
+                                for cj in _conjuncts(ct):
+                                    gk = _count_guard_key(cj, layers_field, mapname)
+                                    if gk is not None and gk != key:
+                                        ctx.finding(rid3, f.id, disc + '/guard-key', '%s: the save of %s is skipped when key %s is already in the undo layer, but the location saved and overwritten has key %s: '
+                                                    'when the other key was saved first in this decision level the old value is never logged and pop() cannot restore it' % (
+                                                        f.name, show(loc_t), show(gk), show(key)), node=sv[3], expect='!count(<the key of the save>)')
                         if sv[2] in ('=', 'insert_or_assign') and unsaved is not True:
                             ctx.finding(rid3, f.id, disc, '%s: the save of %s overwrites an older saved value (first write must win across several updates in one decision level)' % (
                                 f.name, show(loc_t)), node=sv[3], expect='guard with !count(k) or use insert/try_emplace')
@@ -275,6 +284,27 @@ def _is_not_count(t, layers_field, mapname, key):
         if not (isinstance(obj, tuple) and obj[0] == '.' and obj[2] == mapname):
             return False
     return len(c) == 4 and _key_terms(c[3]) == key
+
+
+def _mentions(t, name):
+    if t == name:
+        return True
+    return isinstance(t, tuple) and any(_mentions(x, name) for x in t)
+
+
+def _count_guard_key(t, layers_field, mapname):
+    """key tested by a `!M.count(k)` / `!M.contains(k)` conjunct on the undo map of the top layer, else None."""
+    if not (isinstance(t, tuple) and len(t) == 2 and t[0] == '!' and isinstance(t[1], tuple) and t[1][0] == 'mcall'):
+        return None
+    c = t[1]
+    if not (c[1].endswith('::count') or c[1].endswith('::contains')) or len(c) != 4:
+        return None
+    obj = c[2]
+    if not _mentions(obj, layers_field):
+        return None
+    if mapname is not None and not (isinstance(obj, tuple) and obj[0] == '.' and obj[2] == mapname):
+        return None
+    return _key_terms(c[3])
 
 
 def _norm_find(t):
